@@ -98,6 +98,41 @@ class Ctx:
             self.dist["violations_not_kept"] += 1
 
 
+_STOP = {"func_adl", "and", "the", "called", "by", "used", "uses", "use", "with", "via", "for", "all", "three", "operators",
+         "exports", "ast", "object_stream", "util_ast", "util_types", "type_based_replacement", "meta_data",
+         "function_simplifier", "call_stack", "func_adl_ast_utils", "aggregate_shortcuts", "syntatic_sugar",
+         "event_dataset", "ast_hash", "__init__", "The", "old", "not", "modified", "is", "before", "attaching",
+         "query", "metadata", "copy", "documented"}
+
+
+def _anchors(prop: str, mod):
+    """Files and function names the property is anchored in (properties.jsonl), unless the module overrides them
+    with COVER_FILES / COVER_NAMES."""
+    import re
+
+    import impl
+
+    files, names = [], []
+    try:
+        for line in (VERIF / "properties.jsonl").read_text().splitlines():
+            d = json.loads(line)
+            if d.get("id") != prop:
+                continue
+            a = d.get("anchors", {})
+            files = list(a.get("files", []))
+            for m in list(a.get("mechanism", [])) + list(a.get("state", [])):
+                w = m.get("where", "")
+                w = w.split(":", 1)[1] if ":" in w else w
+                for tok in re.findall(r"[A-Za-z_][A-Za-z_0-9]*", w):
+                    if tok not in _STOP and len(tok) > 2 and not tok.endswith("py"):
+                        names.append(tok)
+    except Exception:
+        pass
+    files = list(getattr(mod, "COVER_FILES", files))
+    names = list(getattr(mod, "COVER_NAMES", names))
+    return [str(Path(impl.REPO) / f) for f in files], sorted(set(names))
+
+
 def _write_json(path: Path, obj: Any):
     path.parent.mkdir(parents=True, exist_ok=True)
     tmp = path.with_suffix(path.suffix + f".tmp{os.getpid()}")
@@ -144,7 +179,16 @@ def run_check(mod, tier: str, seed: int) -> int:
 
     # 3+4. correspondence and oracle -------------------------------------------------------------
     ctx = Ctx(prop, tier, seed)
-    mod.run(ctx)
+    cov_files, cov_names = _anchors(prop, mod)
+    import cover
+
+    cov_on = cover.start(cov_files)
+    try:
+        mod.run(ctx)
+    finally:
+        if cov_on:
+            cover.stop()
+    code_cov = cover.report(cov_names) if cov_on else {"what": "sys.monitoring not available"}
 
     findings = load_findings(prop)
     open_keys = {f["key"]: f for f in findings if f.get("status") == "open"}
@@ -234,6 +278,7 @@ def run_check(mod, tier: str, seed: int) -> int:
             "known_findings_reproduced": sorted(k for k in seen_keys if k in open_keys),
             "escalated_search_evaluations": esc.evaluations if esc else 0,
             "driver_lines": total.driver.lines,
+            "code_coverage": code_cov,
             "notes": total.notes + (esc.notes if esc else []),
             "explanation": getattr(mod, "EXPLANATION", ""),
         },
